@@ -3,6 +3,7 @@ package rules
 import (
 	"fmt"
 	"go/token"
+	"regexp"
 	"sort"
 	"strings"
 
@@ -176,4 +177,116 @@ func membership(f km.Fact) (list, elem ssa.Value, ok bool) {
 func isConfigList(v ssa.Value, field string) bool {
 	_, path, ok := km.FieldPath(km.Unwrap(v))
 	return ok && strings.HasSuffix(path, "Base."+field)
+}
+
+// nonMembership recognises a fact that says "elem is not a member of list": slices.Contains(list, elem) is false,
+// slices.Index(list, elem) < 0 (or == -1), or the comma-ok of a map lookup is false.
+func nonMembership(f km.Fact) (list, elem ssa.Value, ok bool) {
+	cl, idx := callRes(f.X)
+	if cl != nil && idx == 0 {
+		name := km.CalleeFull(cl.Common())
+		if i := strings.Index(name, "["); i > 0 {
+			name = name[:i]
+		}
+		args := cl.Common().Args
+		switch name {
+		case "slices.Contains":
+			if f.Op == token.ILLEGAL && !f.Pol && len(args) == 2 {
+				return km.Unwrap(args[0]), km.Unwrap(args[1]), true
+			}
+		case "slices.Index":
+			if k, isK := km.ConstInt(f.Y); isK && len(args) == 2 {
+				if (f.Op == token.LSS && k == 0) || (f.Op == token.EQL && k == -1) || (f.Op == token.LEQ && k == -1) {
+					return km.Unwrap(args[0]), km.Unwrap(args[1]), true
+				}
+			}
+		}
+	}
+	if f.Op == token.ILLEGAL && !f.Pol {
+		if ex, isEx := f.X.(*ssa.Extract); isEx && ex.Index == 1 {
+			if lk, isLk := ex.Tuple.(*ssa.Lookup); isLk && lk.CommaOk {
+				return km.Unwrap(lk.X), km.Unwrap(lk.Index), true
+			}
+		}
+	}
+	return nil, nil, false
+}
+
+var reInsert = regexp.MustCompile(`(?is)^\s*insert\s+(or\s+replace\s+)?into\s+(\w+)\s*\(([^)]*)\)`)
+var reConflict = regexp.MustCompile(`(?is)on\s+conflict\s*\(([^)]*)\)\s*do\s+update\s+set\s+(.*)$`)
+
+// checkUpsertStatements: every constant SQL statement of keymasterd that inserts into `table` replaces the whole
+// row (insert or replace) or, on conflict, updates every payload column from the new values; a plain insert or
+// an update list that leaves a payload column out keeps the old content under the new acknowledgement.
+func checkUpsertStatements(c *km.Ctx, rule, table string, payload []string, min int) {
+	n := 0
+	seen := map[string]bool{}
+	for _, fn := range c.P.AllFuncs {
+		if fn.Pkg == nil || fn.Pkg.Pkg.Path() != KMD {
+			continue
+		}
+		km.Instrs(fn, func(in ssa.Instruction) {
+			for _, op := range in.Operands(nil) {
+				if op == nil || *op == nil {
+					continue
+				}
+				cs, ok := km.ConstString(*op)
+				if !ok {
+					continue
+				}
+				m := reInsert.FindStringSubmatch(cs)
+				if m == nil || !strings.EqualFold(m[2], table) || seen[cs] {
+					continue
+				}
+				seen[cs] = true
+				n++
+				var cols []string
+				for _, col := range strings.Split(m[3], ",") {
+					cols = append(cols, strings.ToLower(strings.TrimSpace(col)))
+				}
+				okStmt, found := true, "insert or replace: the whole row is rewritten"
+				if m[1] == "" {
+					cm := reConflict.FindStringSubmatch(cs)
+					if cm == nil {
+						okStmt, found = false, "plain insert without a conflict clause"
+					} else {
+						set := map[string]bool{}
+						for _, asg := range strings.Split(cm[2], ",") {
+							parts := strings.SplitN(asg, "=", 2)
+							if len(parts) == 2 {
+								l := strings.ToLower(strings.TrimSpace(parts[0]))
+								rhs := strings.ToLower(strings.TrimSpace(parts[1]))
+								if rhs == "excluded."+l {
+									set[l] = true
+								}
+							}
+						}
+						var missing []string
+						for _, pc := range payload {
+							if !set[pc] {
+								missing = append(missing, pc)
+							}
+						}
+						found = sprintf("on conflict updates %d columns; payload columns not refreshed from the new row: %v", len(set), missing)
+						okStmt = len(missing) == 0
+					}
+				}
+				for _, pc := range payload {
+					has := false
+					for _, col := range cols {
+						if col == pc {
+							has = true
+						}
+					}
+					if !has {
+						okStmt, found = false, "payload column "+pc+" is not inserted"
+					}
+				}
+				c.R.Add(rule, km.FuncName(fn), "upsert statement for "+table+" #"+sprintf("%d", n), posOf(c, in), "insert or replace, or on conflict every payload column ("+strings.Join(payload, ", ")+") = excluded.<column>", found, okStmt)
+			}
+		})
+	}
+	if n < min {
+		c.R.AnchorLost(rule, sprintf("constant insert statements for %s (found %d, expected >= %d)", table, n, min))
+	}
 }
